@@ -54,7 +54,12 @@ class OpenLocked:
 
     def __exit__(self, exc_type, exc_value, traceback):
         try:
-            unlockFile(self.fd)
+            # Buffered data must reach the file before the lock is released.
+            # Otherwise the next lock holder reads a truncated file.
+            try:
+                self.fd.flush()
+            finally:
+                unlockFile(self.fd)
         finally:
             self.fd.close()
 
